@@ -629,7 +629,13 @@ func NewLockCommandDataPopData(popValue uint32) *LockCommandData {
 
 func (self *LockCommandData) GetValueOffset() int {
 	if self.DataFlag&LOCK_DATA_FLAG_CONTAINS_PROPERTY != 0 {
-		return (int(self.Data[6]) | (int(self.Data[7]) << 8)) + 8
+		if len(self.Data) < 8 {
+			return len(self.Data)
+		}
+		if offset := (int(self.Data[6]) | (int(self.Data[7]) << 8)) + 8; offset <= len(self.Data) {
+			return offset
+		}
+		return len(self.Data)
 	}
 	return 6
 }
@@ -866,7 +872,13 @@ func NewLockResultCommandDataFromString(data string, commandStage uint8, command
 
 func (self *LockResultCommandData) GetValueOffset() int {
 	if self.DataFlag&LOCK_DATA_FLAG_CONTAINS_PROPERTY != 0 {
-		return (int(self.Data[6]) | (int(self.Data[7]) << 8)) + 8
+		if len(self.Data) < 8 {
+			return len(self.Data)
+		}
+		if offset := (int(self.Data[6]) | (int(self.Data[7]) << 8)) + 8; offset <= len(self.Data) {
+			return offset
+		}
+		return len(self.Data)
 	}
 	return 6
 }
